@@ -45,8 +45,27 @@ impl Builder {
             });
         }
 
-        let projection = if let Some(project_to) = self.project.unwrap_or(None).map(Project::shape)
+        let project_to = self.project.unwrap_or(None).map(Project::shape);
+
+        // The spectrum must be addressable: with dozens of populations the number of cells
+        // overflows long before any allocation could be attempted
+        let shape = project_to.clone().unwrap_or_else(|| sample_map.shape());
+        let max_elements = isize::MAX as usize / std::mem::size_of::<f64>();
+        if !shape
+            .iter()
+            .try_fold(1usize, |product, &n| product.checked_mul(n))
+            .is_some_and(|elements| elements <= max_elements)
         {
+            return Err(Error::Io(io::Error::new(
+                io::ErrorKind::InvalidInput,
+                format!(
+                    "spectrum with {} dimensions has too many elements",
+                    shape.dimensions()
+                ),
+            )));
+        }
+
+        let projection = if let Some(project_to) = project_to {
             let project_from = sample_map.shape();
 
             if project_from.dimensions() != project_to.dimensions() {
